@@ -299,7 +299,14 @@ func runHandleChain(op string) string {
 	for s := 0; s < steps; s++ {
 		var text, kind string
 		n := 1450 + cr.intn(900)
-		switch cr.intn(8) {
+		switch cr.intn(9) {
+		case 8: // above the asynchronous threshold and ending while containers are open: the terminator reaches stage 2 in
+			// every state of the machine (after a closer inside an object, after a closer inside an array, after a value,
+			// after a comma, after a key, after a colon)
+			body := strings.Repeat("{\"k\":[1,2,3]},", 700+cr.intn(300))
+			tails := []string{"{\"n\":1,\"rows\":[" + body + "1]", "[" + body + "{\"a\":{\"b\":[1]}", "[" + body + "[1,2]", "[" + body + "1",
+				"[" + body + "1,", "{\"rows\":[" + body + "1],\"k\"", "{\"rows\":[" + body + "1],\"k\":", "{\"rows\":[" + body + "1],\"k\":{\"x\":[]}"}
+			text, kind = tails[cr.intn(len(tails))], "async-open-at-end"
 		case 0: // dense, rejected early in stage 2, several index buffers, synchronous path
 			text, kind = "[}"+strings.Repeat(",1", n)+"]", "dense-bad-early"
 		case 1: // dense, rejected late
